@@ -158,11 +158,14 @@ CHECKS = {
               "result comes after the service creation; the address reports the public port), C17_stop (stopListening closes the listener), C17_no_leak (whatever "
               "step fails — configuration unavailable / not a configuration / bootstrap / bind / service creation — listen() fails and no listener is open), "
               "C17_loopback_only, C17_retry (a listen() after a failed one binds anew and forwards to its own port), C17_relisten_not_forwarded (the known finding "
-              "C17-relisten-keeps-old-forwarding as the model has it: listen, stopListening, listen again sends no forwarding request). Correspondence: the real endpoint built through the constructor, Tor.create_*_endpoint and the onion: string parser; listen() "
+              "C17-relisten-keeps-old-forwarding as the model has it: listen, stopListening, listen again sends no forwarding request); with the creating command and the "
+              "descriptor wait spelled out (listenWith: C15's model of the wait run over the answer to the command, the HS_DESC events of this and of other services, and a loss of the connection, "
+              "in any order): C17_resolves_only_after_wait (a resolved listen() had its command answered and accepted and the wait fired with success at that point, the connection not lost before), "
+              "C17_wait_no_leak (open exactly while resolved or still waiting; equal to the step model's success / creation-failure traces), C17_refused_or_lost. Correspondence: the real endpoint built through the constructor, Tor.create_*_endpoint and the onion: string parser; listen() "
               "with a failure injected at every step incl. rejected commands, all uploads failed and a connection lost during the wait (the error type is compared "
               "per step); system_tor / onion: strings with an unreachable control port; single_hop=True against an anonymous Tor; listen() again after a failure and after stopListening()."),
-        note=NOTE_COMMON + "PARTIAL: a recording listening port stands in for sockets (MemoryReactor); the service creation and descriptor wait themselves are C14/C15's "
-             "models — here they are one step that succeeds or fails. listen() of authenticated services is exercised up to the creation command only (the fake Tor "
+        note=NOTE_COMMON + "PARTIAL: a recording listening port stands in for sockets (MemoryReactor); the service creation is C14's model — here it is accepted or refused; the descriptor wait is C15's model, "
+             "composed into listenWith for the cases with a single listen(). listen() of authenticated services is exercised up to the creation command only (the fake Tor "
              "does not hand out real RSA keys in this check; C15 does); the onion: string form without controlPort= (launches a tor binary) is not run.",
         technique="Lean 4: exhaustive decision theorem over the option table (decide +kernel over all 144 combinations, lifted by completeness of the table) + step-sequence theorems with a failure at every step; differential correspondence (exhaustive product)",
         ref='§4 C17'),
